@@ -178,3 +178,46 @@ def store(a, idx, v):
         return z3.Store(a, idx[0], v)
     inner = z3.Select(a, idx[0])
     return z3.Store(a, idx[0], store(inner, idx[1:], v))
+
+
+def abstract_nl(terms):
+    """Replace every product of two or more non-numeral factors (and every division by a
+    non-numeral) by an uninterpreted function application (arguments ordered by term id so
+    commutativity is kept).  `unsat` of the abstracted query implies `unsat` of the
+    original (the abstraction only forgets facts); `sat` means nothing."""
+    cache = {}
+    axioms = []
+    mulr = z3.Function("nl_mul_R", R, R, R)
+    muli = z3.Function("nl_mul_I", I, I, I)
+    divr = z3.Function("nl_div_R", R, R, R)
+
+    def walk(t):
+        k = t.get_id()
+        if k in cache:
+            return cache[k]
+        if z3.is_quantifier(t) or not z3.is_app(t) or t.num_args() == 0:
+            cache[k] = t
+            return t
+        args = [walk(a) for a in t.children()]
+        kind = t.decl().kind()
+        r = None
+        if kind == z3.Z3_OP_MUL:
+            nums = [a for a in args if is_num(a)]
+            others = sorted([a for a in args if not is_num(a)], key=lambda a: a.get_id())
+            if len(others) >= 2:
+                f = mulr if t.sort() == R else muli
+                acc = others[0]
+                for o in others[1:]:
+                    axioms.append(f(acc, o) == f(o, acc))
+                    acc = f(acc, o)
+                r = acc
+                for n in nums:
+                    r = n * r
+        elif kind == z3.Z3_OP_DIV and not is_num(args[1]):
+            r = divr(args[0], args[1])
+        if r is None:
+            r = t.decl()(*args) if args else t
+        cache[k] = r
+        return r
+    out = [walk(t) for t in terms]
+    return out + axioms
